@@ -1630,6 +1630,26 @@ Proof.
   split; [vm_compute; reflexivity|]. split; [vm_compute; reflexivity|]. split; [vm_compute; discriminate|vm_compute; reflexivity].
 Qed.
 
+(** the timeline carries the start time of the first listed segment only: a stored segment that does not start
+    where the previous number ends (number 3 is 60 ticks long instead of 100, number 4 starts on the grid at 400)
+    is listed with the running sum (360), not with its own time. Every precondition holds. *)
+Lemma time_discontinuity_refuted :
+  exists c ups pubs c' pub b it,
+    chan_inv c /\ run_pre c ups /\ chan_trace c ups = Ok (pubs, c') /\
+    last pubs None = Some pub /\ p_first pub = 1 /\ p_last pub = 4 /\
+    lookup 0 (g_bufs (ch_gen c')) = Some b /\ sdb_getItem b 4 = Ok (Some it) /\ i_dts it = 400 /\
+    nth 3 (expand (hd [] (p_tl pub)) 0) (0, 0) = (360, 100).
+Proof.
+  exists (chan_with [[0]] 30 [mkTrack 0 true true 1000]),
+         [mkUp 0 (mkItem 1 100 100 false); mkUp 0 (mkItem 2 200 100 false); mkUp 0 (mkItem 3 300 60 false);
+          mkUp 0 (mkItem 4 400 100 false)].
+  do 5 eexists. split; [apply chan_with_inv|]. split; [apply run_preb_ok; vm_compute; reflexivity|].
+  split; [vm_compute; reflexivity|]. split; [vm_compute; reflexivity|].
+  split; [vm_compute; reflexivity|]. split; [vm_compute; reflexivity|].
+  split; [vm_compute; reflexivity|]. split; [vm_compute; reflexivity|].
+  split; vm_compute; reflexivity.
+Qed.
+
 (** two video tracks, the master delivers two segments before the other one delivers any: before
     9aa9fdc a nil dereference in deriveAndSetFrameRates, now the channel starts (with one track counted) *)
 Lemma start_without_segments_repaired :
